@@ -21,12 +21,10 @@ m("C13", "shared-saved-length", C,
   'fallback = identifier("__fallback", id(node))',
   'fallback = identifier("__fallback")')
 m("C13", "fallback-before-truncate", C,
-  '''body=(error_assignment +
-                      template("del __stream[fallback:]", fallback=fallback) +
+  '''                      template("del __stream[fallback:]", fallback=fallback) +
                       fallback_body
                       ),''',
-  '''body=(error_assignment +
-                      fallback_body +
+  '''                      fallback_body +
                       template("del __stream[fallback:]", fallback=fallback)
                       ),''')
 m("C13", "catch-baseexception", C,
@@ -1812,10 +1810,12 @@ m("C13", "fallback-reuses-filtered-attributes", ZP,
                          for attr in attributes if''',
   '''                        [attr for attr in attributes if''')
 m("C12", "filler-without-handler", C,
-  '''            body = template("__token = None") + self._record_errors(
-                self.visit_Context(slot) or [ast.Pass()]
-            )''',
-  '''            body = self.visit_Context(slot)''')
+  '''                emit_func_convert_and_escape("__quote") + \\
+                self._record_errors(
+                    self.visit_Context(slot) or [ast.Pass()]
+                )''',
+  '''                emit_func_convert_and_escape("__quote") + \\
+                (self.visit_Context(slot) or [ast.Pass()])''')
 m("C12", "filler-called-with-stale-token", C,
   '''        orelse = template("__token = None") + template(
             "SLOT(__stream, econtext.copy(), rcontext)",''',
@@ -1833,3 +1833,95 @@ m("C20", "text-mode-decodes-entities", ZP,
 m("C06", "markup-text-stops-decoding", ZP,
   '''                decode_htmlentities=bool(self.escape),''',
   '''                decode_htmlentities=False,''')
+
+
+# --- round 2 additions -------------------------------------------------------
+m("C09", "filler-uses-writers-append", C,
+  '''            body = template("__append = __stream.append") + \\
+                template("__token = None") + \\''',
+  '''            body = template("__token = None") + \\''')
+m("C09", "filler-inside-writers-capture", C,
+  "            body = [TranslationContext(body, None, None)]\n", "")
+m("C10", "filler-shares-convert-helpers", C,
+  '''                emit_func_convert("__convert") + \\
+                emit_func_convert_and_escape("__quote") + \\
+                self._record_errors(''',
+  '''                self._record_errors(''')
+m("C12", "handled-frames-kept", C,
+  '''                      template("rcontext.pop('__error__', None)") +
+''', "")
+m("C05", "onerror-scope-not-restored", C,
+  '''                body=(scope_restore +
+                      error_assignment +''',
+  '''                body=(error_assignment +''')
+m("C05", "onerror-scope-restored-without-globals", C,
+  '''            "DICT.clear(econtext); econtext.update(scope); "
+            "econtext.update(rcontext)", scope=scope, DICT=Builtin("dict")''',
+  '''            "DICT.clear(econtext); econtext.update(scope)",
+            scope=scope, DICT=Builtin("dict")''')
+m("C05", "onerror-scope-snapshot-shared", C,
+  '''        scope = identifier("__scope", id(node))''',
+  '''        scope = identifier("__scope", node.name)''')
+m("C11", "location-counts-cr", "tokenize.py",
+  "        line = body.count('\\n')",
+  "        line = body.count('\\n') + body.count('\\r')")
+m("C11", "location-bounded-count-refactor", "tokenize.py",
+  '''        body = self.source[:self.pos]
+        line = body.count('\\n')''',
+  '''        body = self.source[:self.pos]
+        line = self.source.count('\\n', 0, self.pos)''', expect="silent")
+m("C17", "meta-search-bounded", "utils.py",
+  "    match = RE_META.search(body)",
+  "    match = RE_META.search(body, 0, 2048)")
+m("C16", "retire-only-on-reload", "template.py",
+  '''        for attr in [
+            attr for attr in self.__dict__
+            if attr.startswith("_render") and attr[1:] not in functions
+        ]:
+            delattr(self, attr)''',
+  '''        for attr in [
+            attr for attr in self.__dict__
+            if attr.startswith("_render") and attr[1:] not in functions
+        ] if self.__dict__.get("_cooked") else []:
+            delattr(self, attr)''')
+m("C16", "retire-list-guard-refactor", "template.py",
+  '''        for attr in [
+            attr for attr in self.__dict__
+            if attr.startswith("_render") and attr[1:] not in functions
+        ]:
+            delattr(self, attr)''',
+  '''        stale = [
+            attr for attr in self.__dict__
+            if attr.startswith("_render") and attr[1:] not in functions
+        ]
+        if stale:
+            for attr in stale:
+                delattr(self, attr)''', expect="silent")
+m("C14", "i18n-attrs-sorted-set-refactor", "tal.py",
+  '''    for name in i18n_attributes:
+        attr = name.lower()''',
+  '''    for name in sorted(set(i18n_attributes), key=list(i18n_attributes).index):
+        attr = name.lower()''', expect="silent")
+m("C19", "expressionerror-is-lookuperror", "exc.py",
+  "class ExpressionError(LanguageError):",
+  "class ExpressionError(LanguageError, KeyError):")
+m("C04", "cache-rebound-per-macro", C,
+  '''    def visit_Macro(self, node):
+        body = []
+''',
+  '''    def visit_Macro(self, node):
+        body = []
+        self._expression_cache = {}
+''')
+m("C03", "static-attr-value-stripped", C,
+  "            s = attr_format % node.expression.value\n",
+  "            s = attr_format % node.expression.value.strip()\n")
+m("C07", "dict-exclude-titlecased", ZP,
+  "        names = [attr[0] for attr in prepared]",
+  "        names = [attr[0] and attr[0].title() for attr in prepared]")
+m("C10", "wrapper-swallows-context", ZT,
+  '''                msgid: str | bytes,
+                txl: TranslationFunction = translate,  # type: ignore''',
+  '''                msgid: str | bytes,
+                context: Any = None,
+                txl: TranslationFunction = translate,  # type: ignore''')
